@@ -23,7 +23,7 @@ RULE = ("every call of the TLA+ enumeration (template sizes x both dimension ord
         "around the template, time intervals, time stamps, catalogue geometries of all nine kinds at two scales, lists of two "
         "geometries, value lists of the wrong length; fill, dtype, scalar/list values varied; templates whose time and frequency "
         "ticks are the same numbers (1 s, 1 Hz) with boxes and lists whose time coordinates equal frequency coordinates of another "
-        "bin) plus random larger templates; "
+        "bin; templates whose step attributes are stale (subsampled axes) or absent) plus random larger templates; "
         "each executed three times (contents A, contents B, all_touched); non-trivial = the call is valid and marks at least one cell")
 TRUSTED_BASE = ["checks/c20.py + vt/geom.py (build template with the library's own range constructors and the geometries on "
                 "dyadic units, call rasterize, read dims/coordinates/cells back as integers)"]
@@ -42,22 +42,43 @@ def _units(tp):
     return TIME_UNITS[(tp["T"] + 2 * tp["F"] + tp["ts"]) % 3], FREQ_UNIT
 
 
+def _axis(kind, a, s, n, unit, attr):
+    """n coordinates a + i*s (ticks of `unit`) built with the library's range constructor.  attr = [] / [v]: the 'step'
+    attribute the coordinate carries: [s] a fresh range; [v] with v dividing s: the axis of step v subsampled by s/v
+    (returns the fine axis and the subsampling factor); []: no step attribute."""
+    make = arrays.create_time_range if kind == "time" else arrays.create_frequency_range
+    v = attr[0] if attr else s
+    k = s // v if (v and s % v == 0) else 1
+    fine = make(a * unit, (a + n * s) * unit, step=(s // k) * unit)
+    if len(fine) != n * k:
+        raise RuntimeError(f"{kind} axis has {len(fine)} points, wanted {n * k}")
+    if attr and k * v != s:                       # a step attribute that is not a divisor: just recorded
+        fine.attrs["step"] = v * unit
+    if not attr:
+        fine.attrs.pop("step", None)
+    return fine, k
+
+
 def _template(tp, tu, fu, variant):
     T, F = tp["T"], tp["F"]
-    tc = arrays.create_time_range(start_time=tp["t0"] * tu, end_time=(tp["t0"] + T * tp["ts"]) * tu, step=tp["ts"] * tu)
-    fc = arrays.create_frequency_range(low_freq=tp["f0"] * fu, high_freq=(tp["f0"] + F * tp["fs"]) * fu, step=tp["fs"] * fu)
-    if len(tc) != T or len(fc) != F:
-        raise RuntimeError(f"template axes have {len(tc)}x{len(fc)} points, wanted {T}x{F}")
+    tc, kt = _axis("time", tp["t0"], tp["ts"], T, tu, tp.get("tstep", [tp["ts"]]))
+    fc, kf = _axis("frequency", tp["f0"], tp["fs"], F, fu, tp.get("fstep", [tp["fs"]]))
     if variant == "A":
-        content = np.zeros((T, F))
+        content = np.zeros((T * kt, F * kf))
     else:                               # arbitrary contents: noise, a NaN, an infinity
         rng = np.random.default_rng(T * 131 + F * 17 + tp["t0"])
-        content = rng.normal(size=(T, F)) * 1e3 + 9.0
+        content = rng.normal(size=(T * kt, F * kf)) * 1e3 + 9.0
         content.flat[0] = np.nan
         content.flat[-1] = np.inf
     if tp["order"] == "tf":
-        return xr.DataArray(content, dims=["time", "frequency"], coords={"time": tc, "frequency": fc})
-    return xr.DataArray(content.T.copy(), dims=["frequency", "time"], coords={"frequency": fc, "time": tc})
+        arr = xr.DataArray(content, dims=["time", "frequency"], coords={"time": tc, "frequency": fc})
+    else:
+        arr = xr.DataArray(content.T.copy(), dims=["frequency", "time"], coords={"frequency": fc, "time": tc})
+    if kt > 1 or kf > 1:                # the subsampled template keeps the attributes of the finer axes
+        arr = arr.isel(time=slice(None, None, kt), frequency=slice(None, None, kf))
+    if arr.sizes["time"] != T or arr.sizes["frequency"] != F:
+        raise RuntimeError("template has the wrong size")
+    return arr
 
 
 def _int(x):
@@ -126,6 +147,9 @@ def random_cases(rng, tier):
         tp = {"T": rng.randint(1, 8), "F": rng.randint(1, 8), "order": rng.choice(["ft", "tf"]),
               "t0": rng.randint(0, 6), "ts": rng.randint(1, 5), "f0": rng.randint(0, 6), "fs": rng.randint(1, 5),
               "fu": rng.choice([250, 1])}       # fu = 1: time and frequency ticks are the same numbers
+        for ax, key in (("ts", "tstep"), ("fs", "fstep")):        # step attribute: truthful, a stale divisor, or absent
+            divs = [d for d in range(1, tp[ax]) if tp[ax] % d == 0]
+            tp[key] = rng.choice([[tp[ax]], [tp[ax]], [rng.choice(divs)] if divs else [tp[ax]], []])
         ng = rng.choice([1, 1, 2, 3])
         geoms = [_rand_geom(rng, tp) for _ in range(ng)]
         scalar = rng.random() < 0.2
